@@ -333,3 +333,129 @@ Proof.
   split; [reflexivity|]. split; [|reflexivity].
   intros prefix e1 e2 _ H1 H2 _ _. apply In4_iro in H1. apply In4_iro in H2. congruence.
 Qed.
+
+(* ====================================================================================================
+   Extension: the NESTED DICTIONARIES of the code (Model/Trie.v: byorder lists of dictionary trees,
+   padding, pruning loop, stripping, _allKeys enumeration, the walkers with their ``if comps:`` tests and
+   ``order >= len(byorder)`` guards) refine the flat finite map of Model/Adapter.v the theorems above are
+   about.  [R W t r] (Spec/TrieRel.v): t represents r — TrieInv t (unique keys, no empty sub-dictionary,
+   subscriber tuples non-empty, no trailing empty byorder entry), every adapter key / subscription key
+   finds the same value / tuple in both, _provided / extendors / generation identical.
+   [lock_step] (Model/Bookkeeping.v) runs both models; the flat one replays rebuild() in the nested
+   enumeration order (C09_replay_preserves holds for every order).
+   ==================================================================================================== *)
+From ZI Require Import Model.Trie Spec.TrieRel Proofs.TrieRefines.
+
+(* every registry reachable on nested dictionaries is well-formed: in particular pruning never leaves an
+   empty dictionary behind and never removes a non-empty one *)
+Theorem C09_trie_invariant : forall W ops, TrieInv (t_brun W ops).
+Proof. intros W ops. destruct (trie_refines_flat_lemma W ops) as (_ & HR & _). apply HR. Qed.
+Print Assumptions C09_trie_invariant.
+
+(* one operation on both models keeps them related: abs (trie_op t) = flat_op (abs t) for register /
+   unregister / subscribe / unsubscribe (so padding, pruning and stripping are invisible), and rebuild()
+   on nested dictionaries is the flat replay in _all_entries order *)
+Theorem C09_trie_step_refines : forall W t r o, R W t r ->
+  R W (fst (lock_step W (t, r) o)) (snd (lock_step W (t, r) o)).
+Proof. exact sim_step_R. Qed.
+Print Assumptions C09_trie_step_refines.
+
+Theorem C09_trie_rebuild_is_replay : forall W t r, R W t r ->
+  t_rebuild W t = t_replay W (t_fresh (t_generation t)) (t_allRegistrations t) (t_allSubscriptions t)
+  /\ R W (t_rebuild W t)
+         (replay_into W (fresh_reg (generation r)) (t_allRegistrations t) (t_allSubscriptions t)).
+Proof. intros W t r H. split; [reflexivity|]. apply (sim_step_R W t r BRebuild H). Qed.
+Print Assumptions C09_trie_rebuild_is_replay.
+
+(* registered() / subscribed() (= _find_leaf) agree on related registries *)
+Theorem C09_trie_find_leaf_agrees : forall W t r, R W t r ->
+  (forall req p n, t_registered t req p n = registered r req p n)
+  /\ (forall req p v, t_subscribed t req p v = subscribed r req p v).
+Proof.
+  intros W t r (_ & _ & A & Sf & _). split.
+  - intros req p n. apply (A (map conv req, p, n)).
+  - intros req p v. unfold t_subscribed, subscribed. f_equal. apply (Sf (map conv req, p)).
+Qed.
+Print Assumptions C09_trie_find_leaf_agrees.
+
+(* the walkers over nested dictionaries (_lookup / _lookupAll / _subscriptions under the _uncached_ entry points) give
+   what Model/Adapter's walkers give on the flat map, for whole resolution orders of related registries:
+   the ``if comps:`` truthiness tests and the ``order >= len(byorder)`` guards are redundant.
+   lookupAll: equal as finite maps name -> value (the order of names inside the result follows the
+   respective enumeration and is not observable through names()/lookupAll() as sets) *)
+Theorem C09_trie_walkers_equal_flat : forall W ts rs required, Forall2 (R W) ts rs ->
+  (forall p n, t_uncached_lookup W ts required p n = uncached_lookup W rs required p n)
+  /\ (forall p, t_uncached_subscriptions W ts required p = uncached_subscriptions W rs required p)
+  /\ (forall p n, aget Nat.eqb (t_uncached_lookupAll W ts required p) n
+                  = aget Nat.eqb (uncached_lookupAll W rs required p) n).
+Proof.
+  intros W ts rs required F. split; [|split].
+  - intros p n. apply t_uncached_lookup_flat; auto.
+  - intros p. apply t_uncached_subscriptions_flat; auto.
+  - intros p n. apply t_uncached_lookupAll_flat; auto.
+Qed.
+Print Assumptions C09_trie_walkers_equal_flat.
+
+(* _all_entries over well-formed nested dictionaries lists exactly the keys _find_leaf finds *)
+Theorem C09_trie_allRegistrations_exact : forall t, TrieInv t -> forall req p n v,
+  In ((req, p, n), v) (t_allRegistrations t) <-> t_registered t (map Some req) p n = Some v.
+Proof.
+  intros t TI req p n v. rewrite t_allRegistrations_spec; [|apply TI].
+  unfold t_registered, afind. rewrite map_conv_Some. reflexivity.
+Qed.
+Print Assumptions C09_trie_allRegistrations_exact.
+
+(* all histories: the nested-dictionary run and the flat run answer registered / subscribed / lookup /
+   subscriptions identically, lookupAll identically as maps, allRegistrations identically as sets, and
+   carry identical _provided counts, extendors and generation.
+   PARTIAL in one respect (hence no claim about allSubscriptions as sets, and the flat run is the lockstep
+   one): that the nested enumeration is a permutation of the flat listing keeping each subscription key's
+   order — which would identify the lockstep flat run with [brun] THROUGH rebuild() via
+   C09_replay_preserves — is not proved here (it needs NoDup of _all_entries and the invariant that a
+   subscriber leaf dictionary has the single key ''); it is checked on every run by the tie
+   (Tie/C09.listing_matches).  Without rebuild() the two flat runs coincide
+   (C09_trie_lockstep_is_brun_without_rebuild). *)
+Theorem C09_trie_refines_flat : forall W ops,
+  let t := t_brun W ops in
+  let r := snd (lock_run W ops) in
+  fst (lock_run W ops) = t /\ R W t r
+  /\ (forall req p n, t_registered t req p n = registered r req p n)
+  /\ (forall req p v, t_subscribed t req p v = subscribed r req p v)
+  /\ (forall required p n, t_uncached_lookup W [t] required p n = uncached_lookup W [r] required p n)
+  /\ (forall required p, t_uncached_subscriptions W [t] required p = uncached_subscriptions W [r] required p)
+  /\ (forall required p n, aget Nat.eqb (t_uncached_lookupAll W [t] required p) n
+                           = aget Nat.eqb (uncached_lookupAll W [r] required p) n)
+  /\ (forall k v, In (k, v) (t_allRegistrations t) <-> In (k, v) (allRegistrations r)).
+Proof. exact trie_refines_flat_lemma. Qed.
+Print Assumptions C09_trie_refines_flat.
+
+Theorem C09_trie_lockstep_is_brun_without_rebuild : forall W ops,
+  forallb (fun o => match o with BRebuild => false | _ => true end) ops = true ->
+  snd (lock_run W ops) = brun W ops.
+Proof. exact lock_run_no_rebuild. Qed.
+Print Assumptions C09_trie_lockstep_is_brun_without_rebuild.
+
+(* ---- non-vacuity: the layout after removing the last entry of a nested container while siblings
+   remain, padding of lower orders, stripping; the ambiguous lookup after rebuild() as the CODE answers it *)
+Definition h_prune : list bop :=
+  [BRegister [Some 1; Some 2] 3 0 (Some v1); BRegister [Some 1; None] 3 0 (Some v3);
+   BRegister [Some 1; Some 2] 4 0 (Some v2); BUnregister [Some 1; Some 2] 3 0 None].
+
+Example ex_trie_pruning :
+  t_adapters (t_brun W0 h_prune)
+  = [Node []; Node [];
+     Node [(1, Node [(2, Node [(4, Node [(0, Leaf v2)])]); (0, Node [(3, Node [(0, Leaf v3)])])])]]
+  /\ t_adapters (t_brun W0 (h_prune ++ [BUnregister [Some 1; Some 2] 4 0 (Some v2); BUnregister [Some 1; None] 3 0 None]))
+     = []
+  /\ R W0 (t_brun W0 h_prune) (snd (lock_run W0 h_prune)).
+Proof.
+  split; [reflexivity|]. split; [reflexivity|].
+  destruct (trie_refines_flat_lemma W0 h_prune) as (_ & HR & _). exact HR.
+Qed.
+
+Example ex_trie_rebuild_order :
+  t_allRegistrations (t_brun W0 h_amb) = nested_order
+  /\ t_uncached_lookup W0 [t_brun W0 h_amb] [2] 0 0 = Some (mkV 23 23)
+  /\ t_uncached_lookup W0 [t_rebuild W0 (t_brun W0 h_amb)] [2] 0 0 = Some (mkV 22 22)
+  /\ t_uncached_lookup W0 [t_rebuild W0 (t_brun W0 h_amb)] [2] 4 0 = Some (mkV 22 22).
+Proof. repeat split; reflexivity. Qed.
